@@ -910,6 +910,9 @@ func genXver(r *rand.Rand, i int) Scenario {
 	//  - reference reader: dictionary entry counts are not observed.
 	if w == "ref" {
 		cfg.PRepeat = 0
+		// the reference MERGER reads stored fields through the defective path too: keep its inputs to one block
+		cfg.MinDocs, cfg.MaxDocs = 0, 6
+		cfg.TermsPerInst = 3
 	}
 	sc := Scenario{Name: fmt.Sprintf("xver-%d", i), NormKind: "code", Universe: universeOf(&cfg)}
 	seq := 0
